@@ -23,6 +23,7 @@ EXPLANATION = (
     "the form that is correct for i == -1; (6) normalisation: arithmetic that assumes an ascending, well-ordered "
     "range (min(x, stop), stop - start, x < stop) is reachable only after negative steps and reversed bounds were normalised."
     ' Round 4: (9) _focus is written only by __init__ and the focus setter, the one place that fires the focus-changed callback.'
+    ' Round-4 triage: (10) extend / slice assignment materialise their iterable, sort() re-finds the focus by identity, the empty list is handled before the stored index is shifted; (11) index / count parameters are coerced with operator.index() before the override computes with them, the constructor focus goes through the validating setter, clear() reports the removal of the whole list.'
 )
 NOT_DECIDED = "The index arithmetic of _adjust_focus_on_contents_modified (which position the focus ends up at), equality with a built-in list for all operation sequences, error parity for every bad index."
 ASSUMPTIONS = ["The list of mutators is derived from the `list` type of the analysing interpreter (CPython 3.12)."]
@@ -548,12 +549,82 @@ def rule_list_semantics(ctx: Ctx) -> RuleResult:
     return rr
 
 
+def rule_index_coercion(ctx: Ctx) -> RuleResult:
+    """list takes any object with __index__ as index / repeat count.  An override that does arithmetic or a
+    comparison on such a parameter itself (y + 1, n > 0) must first turn it into an int with operator.index()
+    - or be on the isinstance(.., slice) branch; otherwise it raises TypeError where list succeeds.
+    Also: (b) the constructor's focus= goes through the validating `focus` setter (the stored `_focus` is only ever
+    initialised with a constant); (c) clear() describes itself to the focus arithmetic / validate callback as the
+    removal of the whole list, with the same slice the all-removing branch of __imul__ uses."""
+    from ..rules.defuse import DefUse
+
+    p = ctx.p
+    rr = RuleResult("KIND", "C16.11", "index / count parameters are coerced with operator.index() before arithmetic; the constructor focus is validated by the setter; clear() reports slice(0, len(self))", floor=6)
+    mfl = p.cls(f"{ML}.MonitoredFocusList")
+    for name, fo in sorted(mfl.methods.items()):
+        sup = [c for c in fo.own_nodes() if isinstance(c, ast.Call) and isinstance(c.func, ast.Attribute) and c.func.attr == name and isinstance(c.func.value, ast.Call) and isinstance(c.func.value.func, ast.Name) and c.func.value.func.id == "super"]
+        if not sup or not sup[0].args or not isinstance(sup[0].args[0], ast.Name):
+            continue
+        prm = sup[0].args[0].id
+        if prm not in fo.params or name in ("append", "extend", "remove", "__iadd__"):
+            continue
+        du = DefUse(fo)
+        cfg = du.cfg
+        ops = [n for n in fo.own_nodes() if (isinstance(n, ast.BinOp) and any(isinstance(x, ast.Name) and x.id == prm for x in (n.left, n.right))) or (isinstance(n, ast.Compare) and any(isinstance(x, ast.Name) and x.id == prm for x in (n.left, *n.comparators)))]
+        for o in ops:
+            at = du.node_of(o)
+            if at is None:
+                continue
+            defs = du.reaching(prm, at)
+            raw = [d for d in defs if d[1] == "param"]
+            coerced = all(isinstance(v, ast.Call) and ast.unparse(v.func) in ("operator.index", "index", "int") for v, how, dn in defs if how != "param")
+            on_slice_branch = any(t.kind == "test" and isinstance(t.ast, ast.Call) and ast.unparse(t.ast.func) == "isinstance" and at not in ExcEngine._reach_without_edge(cfg, t, "T") for t in cfg.nodes)
+            ok = (not raw and coerced) or on_slice_branch
+            rr.inst(f"{name}: {norm(o, 30)}", True, {"method": name, "parameter": prm, "operation": norm(o, 40), "coerced": ok} if len(rr.samples) < 8 else None)
+            if not ok:
+                rr.add(finding("KIND", fo, o, f"`{norm(o, 40)}` computes with the raw `{prm}` parameter of {name}(): list accepts any object with __index__ here, this override raises TypeError for it", construct=f"{name}: {prm} used in arithmetic without operator.index()"))
+    # (b)
+    init = mfl.methods["__init__"]
+    fparam = "focus"
+    stores = [n for n in init.own_nodes() if isinstance(n, ast.Assign) and any(isinstance(t, ast.Attribute) and t.attr == "_focus" for t in n.targets)]
+    via_setter = [n for n in init.own_nodes() if isinstance(n, ast.Assign) and any(isinstance(t, ast.Attribute) and t.attr == "focus" and isinstance(t.value, ast.Name) and t.value.id == init.self_name for t in n.targets) and isinstance(n.value, ast.Name) and n.value.id == fparam]
+    rr.inst("__init__: focus validated", True, {"raw_stores": [norm(n, 40) for n in stores], "through_setter": [norm(n, 40) for n in via_setter]})
+    if fparam in init.all_params:
+        for n in stores:
+            if not isinstance(n.value, ast.Constant):
+                rr.add(finding("KIND", init, n, f"`{norm(n, 40)}` stores the constructor's focus= argument unchecked: MonitoredFocusList([1, 2, 3], focus=5) reports a focus index outside the list", construct="constructor focus stored without validation"))
+        if not via_setter:
+            rr.add(finding("KIND", init, init.node, "the constructor never assigns its focus= argument through the validating `focus` setter", construct="constructor focus not applied through the setter"))
+    # (c)
+    def removal_slices(fo):
+        return [c.args[0] for c in fo.own_nodes() if isinstance(c, ast.Call) and isinstance(c.func, ast.Attribute) and c.func.attr == "_adjust_focus_on_contents_modified" and len(c.args) == 1 and isinstance(c.args[0], ast.Call)]
+
+    cl = mfl.methods.get("clear")
+    im = mfl.methods.get("__imul__")
+    if cl is None or im is None:
+        raise AnalysisError("MonitoredFocusList.clear / __imul__ not found")
+    a, b = removal_slices(cl), removal_slices(im)
+    rr.inst("clear: whole-list removal", True, {"clear": [norm(x) for x in a], "__imul__ (n <= 0)": [norm(x) for x in b]})
+    if not a or not b:
+        raise AnalysisError("clear / __imul__: the removal slice handed to _adjust_focus_on_contents_modified was not found")
+    want = ast.unparse(b[0]).replace(im.self_name + ")", "SELF)")
+    for x in a:
+        if ast.unparse(x).replace(cl.self_name + ")", "SELF)") != want:
+            rr.add(finding("SIB", cl, x, f"clear() describes itself as `{norm(x)}` to the focus arithmetic and the validate callback, the all-removing branch of __imul__ as `{norm(b[0])}`: the callback is told that nothing is removed", construct=f"clear reports {norm(x)}"))
+    return rr
+
+
 def run(ctx: Ctx):
-    return [rule_cover(ctx), rule_order(ctx), rule_wrapper(ctx), rule_focus_setter(ctx), rule_slice_triple(ctx), rule_slice_norm(ctx), rule_norm_simultaneous(ctx), rule_index_slice_idiom(ctx), rule_focus_writers(ctx), rule_list_semantics(ctx)]
+    return [rule_cover(ctx), rule_order(ctx), rule_wrapper(ctx), rule_focus_setter(ctx), rule_slice_triple(ctx), rule_slice_norm(ctx), rule_norm_simultaneous(ctx), rule_index_slice_idiom(ctx), rule_focus_writers(ctx), rule_list_semantics(ctx), rule_index_coercion(ctx)]
 
 
 _F = "urwid/widget/monitored_list.py"
 MUTANTS = [
+    Mut("delitem-raw-index-arithmetic", _F, "MonitoredFocusList.__delitem__", "            y = operator.index(y)  # like list: any object with __index__\n", "", "KIND|widget.monitored_list.MonitoredFocusList.__delitem__"),
+    Mut("imul-raw-count-compare", _F, "MonitoredFocusList.__imul__", "        n = operator.index(n)  # like list: any object with __index__\n", "", "KIND|widget.monitored_list.MonitoredFocusList.__imul__"),
+    Mut("ctor-focus-unchecked", _F, "MonitoredFocusList.__init__", "        self._focus = 0\n        self.focus = focus  # validated like every later assignment\n", "        self._focus = focus\n", "KIND|widget.monitored_list.MonitoredFocusList.__init__"),
+    Mut("clear-reports-empty-slice", _F, "MonitoredFocusList.clear", "slice(0, len(self))", "slice(0, 0)", "SIB|widget.monitored_list.MonitoredFocusList.clear"),
+    Mut("twin-pop-index-int-name", _F, "MonitoredFocusList.pop", "        index = operator.index(index)  # like list: any object with __index__\n", "        index = operator.index(index)\n        assert index == index\n", twin=True),
     Mut("iadd-bypasses-validation", _F, "MonitoredFocusList.__iadd__", "        self.extend(items)\n        return self", "        return super().__iadd__(items)", ("COVER|widget.monitored_list.MonitoredFocusList.__iadd__", "ORDER|widget.monitored_list.MonitoredFocusList.__iadd__")),
     Mut("sort-refinds-focus-by-equality", _F, "MonitoredFocusList.sort", "self.focus = next(i for i, item in enumerate(self) if item is value)", "self.focus = self.index(value)", "KIND|widget.monitored_list.MonitoredFocusList.sort"),
     Mut("extend-needs-len", _F, "MonitoredFocusList.extend", "        items = list(items)  # any iterable may be given, also a one-pass iterator\n", "", "KIND|widget.monitored_list.MonitoredFocusList.extend"),
